@@ -446,13 +446,82 @@ func decodeTerms(v ssa.Value, out *[]hdrTerm) bool {
 			}
 			ix, ok := x.X.(*ssa.Index)
 			if !ok {
-				return false
+				// a constant subtracted from a combination that contains one raw byte:
+				// A + B + uint64(s[3]) - 63 is the prescribed sum (the offset moves onto the raw byte);
+				// A | B | uint64(s[3]) - 63 is ((A|B)|s[3]) - 63 in Go (| and - bind alike), and bit 6 of the
+				// raw byte collides with the low bit of B: not a form of the format
+				var ts []hdrTerm
+				usesOr := false
+				if !rawTerms(x.X, &ts, &usesOr) {
+					return false
+				}
+				raw := -1
+				for i, t := range ts {
+					if t.off == 0 {
+						if raw >= 0 {
+							return false
+						}
+						raw = i
+					}
+				}
+				if raw < 0 {
+					return false
+				}
+				if usesOr {
+					ts = append(ts, hdrTerm{-1, 0, off}) // marks "offset applied to an OR of terms"
+				} else {
+					ts[raw].off = off
+				}
+				*out = append(*out, ts...)
+				return true
 			}
 			c, ok := constInt(ix.Index)
 			if !ok {
 				return false
 			}
 			*out = append(*out, hdrTerm{c, 0, off})
+			return true
+		}
+	}
+	return false
+}
+
+// rawTerms: like decodeTerms, but a byte used without its offset (uint64(s[c])) is a term with off 0.
+func rawTerms(v ssa.Value, out *[]hdrTerm, usesOr *bool) bool {
+	v = strip(v)
+	switch x := v.(type) {
+	case *ssa.Index:
+		c, ok := constInt(x.Index)
+		if !ok {
+			return false
+		}
+		*out = append(*out, hdrTerm{c, 0, 0})
+		return true
+	case *ssa.BinOp:
+		switch x.Op {
+		case token.ADD, token.OR:
+			if x.Op == token.OR {
+				*usesOr = true
+			}
+			return rawTerms(x.X, out, usesOr) && rawTerms(x.Y, out, usesOr)
+		case token.SHL:
+			sh, ok := constInt(x.Y)
+			if !ok {
+				return false
+			}
+			var inner []hdrTerm
+			if !rawTerms(x.X, &inner, usesOr) || len(inner) != 1 || inner[0].shift != 0 {
+				return false
+			}
+			inner[0].shift = sh
+			*out = append(*out, inner[0])
+			return true
+		case token.SUB:
+			var ts []hdrTerm
+			if !decodeTerms(x, &ts) {
+				return false
+			}
+			*out = append(*out, ts...)
 			return true
 		}
 	}
